@@ -163,6 +163,10 @@ def ipm_cases(draw):
             m = draw(noncanonical_carriers(a, m))
         else:
             m = draw(c06.bounded_message(PACKAGED, a))
+            if draw(st.sampled_from([False, False, True])):
+                # a long record: several variable elements near their maximum, so that one record spans 2..6 blocks
+                for k in draw(st.lists(st.sampled_from(['DE54', 'DE72', 'DE111', 'DE127', 'DE63']), min_size=2, max_size=5, unique=True)):
+                    m[k] = draw(gen_iso.tiled_text(a, draw(st.one_of(uniform(600, 999), st.just(999)))))
         while len(refcodec.encode(PACKAGED, a, False, m)) > 6000:
             k = max((k for k in m if k != 'MTI'), key=lambda k: len(m[k]) if hasattr(m[k], '__len__') else 0)
             del m[k]
@@ -229,7 +233,10 @@ def hyp_param(ctx, n):
     try:
         strat = st.tuples(st.sampled_from(PAIRS), st.sampled_from(FORMATS), st.sampled_from(FORMATS),
                           st.lists(st.one_of(st.binary(min_size=1, max_size=80),
-                                             st.tuples(st.binary(min_size=1, max_size=9), uniform(1, 1100)).map(lambda t: (t[0] * 1100)[:t[1]])),
+                                             st.tuples(st.binary(min_size=1, max_size=9), uniform(1, 1100)).map(lambda t: (t[0] * 1100)[:t[1]]),
+                                             st.tuples(st.binary(min_size=1, max_size=9),
+                                                       st.one_of(uniform(1, 6000), st.sampled_from([1012, 2024, 2025, 3036, 3037, 4048, 6000]))
+                                                       ).map(lambda t: (t[0] * 6000)[:t[1]])),
                                    min_size=1, max_size=8))
 
         def body(v):
